@@ -143,7 +143,8 @@ PROPS = {
                 + jobs(["defer_queue_first", "defer_sub"], ["defer", "queue"], 800, 30000, variants=ALLV)
                 # long-lived machines: hundreds of ops per run (the deferred-queue sequence counter wraps; third seeded defect C05)
                 + jobs(["defer_basic", "defer_queue_first", "defer_action"], ["long"], 60, 3000, variants=["B", "BC", "B11", "M", "MC"])
-                + jobs(["defer_cond"], ["long"], 40, 2000, variants=["M", "MC"]),
+                + jobs(["defer_cond"], ["long"], 40, 2000, variants=["M", "MC"])
+                + rand_jobs("dfb", ["long"], 0, 300, nthorough=6),
         "nontrivial": ["deferred"],
         "rule": "event sequences over machines with deferring states / Defer actions, public defer_event, posts with the defer API; "
                 "non-trivial = a deferred occurrence was observed pending at a quiescent point; distinct = full-trace hash",
